@@ -209,52 +209,300 @@ class Site:
     method    the `Evaluator` method containing the call
     expr      exact source text (ast.unparse) of the call expression inside that method; the handler set
               of the site is the union of the `except` clauses of every `try` statement of the method whose
-              BODY contains that expression (computed from the source on every run)
-    prims     {label: callable} the primitives the call can dispatch to
-    arity     number of operands
-    domain    optional filter on the operand tuple (mirrors an isinstance dispatch in the method)
+              BODY contains that expression (recomputed from the source on every run)
+    under     optional: the expression must be inside an `if` whose test has this source text
+    which     which occurrence (source order) among the matches
+    also      further expression texts that must occur in the same try bodies (asserted, not measured apart)
+    cases     thunk -> iterable of (key, call): key = tuple of strings (label, operand kinds...), call = thunk
+              applying the primitive to concrete pool values (mirrors what the method does at that point)
     """
     name: str
     method: str
     expr: str
-    prims: Dict[str, Callable[..., Any]]
-    arity: int
-    domain: Optional[Callable[..., bool]] = None
-    which: int = 0      # which occurrence of `expr` in the method (source order)
+    cases: Callable[[], Any]
+    under: Optional[str] = None
+    which: int = 0
+    also: Tuple[str, ...] = ()
+
+
+def _reps() -> List[PoolVal]:
+    """one representative per kind"""
+    seen, out = set(), []
+    for p in pool():
+        if p.kind not in seen:
+            seen.add(p.kind)
+            out.append(p)
+    return out
 
 
 def build_sites() -> List[Site]:
-    import operator
+    import celpy
     from celpy import celtypes as ct
-    from celpy.evaluation import base_functions as bf, NameContainer, CELEvalError
+    from celpy import evaluation as ev
+    from celpy.evaluation import base_functions as bf, NameContainer, CELEvalError, Activation
+    import typing
 
-    def cond_prim(c, l, r):
-        # `if cond_value:` is evaluated inside the try block as well
-        bool(c)
-        return bf["_?_:_"](c, l, r)
+    P = pool()
+    R = _reps()
+
+    def unary_cases(fns):
+        def gen():
+            for lbl, f in fns.items():
+                for a in P:
+                    yield (lbl, a.kind), (lambda f=f, a=a: f(a.make()))
+        return gen
+
+    def binary_cases(fns):
+        def gen():
+            for lbl, f in fns.items():
+                for a in P:
+                    for b in P:
+                        yield (lbl, a.kind, b.kind), (lambda f=f, a=a, b=b: f(a.make(), b.make()))
+        return gen
+
+    def cond_cases():
+        def prim(c, l, r):
+            # `if cond_value:` is evaluated inside the same try block
+            bool(c)
+            return bf["_?_:_"](c, l, r)
+        few = [p for p in R if p.kind in ("int", "str", "err", "null", "list", "bool", "dbl")]
+        for c in P:
+            for l in few:
+                for r in few:
+                    yield ("_?_:_", c.kind, l.kind, r.kind), (lambda c=c, l=l, r=r: prim(c.make(), l.make(), r.make()))
+
+    def dot_cases(branch):
+        names = ["a", "b", "value"]
+
+        def gen():
+            for m in P:
+                v = m.make()
+                if isinstance(v, CELEvalError):
+                    continue
+                if branch == "nc":
+                    if not isinstance(v, NameContainer):
+                        continue
+                    for n in names:
+                        if n in v:
+                            yield ("nc", m.kind, "present"), (lambda m=m, n=n: m.make()[n].value)
+                elif branch == "msg":
+                    if isinstance(v, NameContainer) or not isinstance(v, ct.MessageType):
+                        continue
+                    for n in names:
+                        yield ("msg", m.kind, "present" if n in v else "absent"), (lambda m=m, n=n: m.make().get(n))
+                else:
+                    if isinstance(v, (NameContainer, ct.MessageType)) or not isinstance(v, ct.MapType):
+                        continue
+                    for n in names:
+                        yield ("map", m.kind, "present" if n in v else "absent"), (lambda m=m, n=n: m.make()[n])
+        return gen
+
+    def iterables():
+        for m in P:
+            v = m.make()
+            if isinstance(v, CELEvalError) or not isinstance(v, typing.Iterable):
+                continue
+            yield m
+
+    def iter_cases():
+        for m in iterables():
+            yield ("iter", m.kind), (lambda m=m: [x for x in m.make()])
+
+    def min_cases():
+        for m in iterables():
+            yield ("min", m.kind), (lambda m=m: min(m.make()))
+
+    def fold_cases():
+        accs = [p for p in P if p.kind in ("bool", "err")]
+        for lbl in ("_&&_", "_||_"):
+            for a in accs:
+                for b in P:
+                    yield (lbl, a.kind, b.kind), (lambda lbl=lbl, a=a, b=b: bf[lbl](a.make(), b.make()))
+
+    def truth_cases():
+        for a in P:
+            yield ("bool", a.kind), (lambda a=a: bool(a.make()))
+
+    fnames = sorted(k for k in bf if k[0].isalpha())
+
+    def call_cases(method: bool):
+        def gen():
+            for f in fnames:
+                fn = bf[f]
+                if not method:
+                    yield (f, "0"), (lambda fn=fn: fn())
+                for a in P:
+                    yield (f, "1", a.kind), (lambda fn=fn, a=a: fn(a.make()))
+                for a in P:
+                    for b in R:
+                        yield (f, "2", a.kind, b.kind), (lambda fn=fn, a=a, b=b: fn(a.make(), b.make()))
+                few = [p for p in R if p.kind in ("int", "str", "null", "list")]
+                for a in R:
+                    for b in few:
+                        for c in few:
+                            yield (f, "3", a.kind), (lambda fn=fn, a=a, b=b, c=c: fn(a.make(), b.make(), c.make()))
+        return gen
+
+    def resolve_fn_cases():
+        act = Activation()
+        for n in fnames + ["nosuch", "_+_", ""]:
+            yield ("fn", "known" if n in bf else "unknown"), (lambda n=n: act.resolve_function(n))
+
+    def resolve_var_cases(dotted: bool):
+        # activation shapes: package x binding name x bound value kind x looked-up name
+        for pkg in (None, "jq", "a.b"):
+            for bname in ("jq", "a", "a.b", "x"):
+                for v in R:
+                    if not v.is_cel and v.kind not in ("err",):
+                        continue
+                    for look in ("jq", "a", "b", "c", "x", "size", "nosuch", "google"):
+                        def call(pkg=pkg, bname=bname, v=v, look=look):
+                            act = Activation(package=pkg, annotations=dict(celpy.googleapis))
+                            act2 = act.clone()
+                            act2.identifiers.load_values({bname: v.make()})
+                            return act2.resolve_variable(look)
+                        yield ("var", str(pkg), bname, v.kind, look), call
+
+    def maplit_cases():
+        def prim(items):
+            # Evaluator.mapinits after the children are evaluated
+            result_value = ct.MapType()
+            for item in items:
+                if isinstance(item, CELEvalError):
+                    return item
+            for key, value in zip(items[0::2], items[1::2]):
+                if key in result_value:
+                    raise ValueError(f"Duplicate key {key!r}")
+                result_value[key] = value
+            return result_value
+        for a in P:
+            yield ("map1", a.kind), (lambda a=a: prim([a.make(), ct.IntType(1)]))
+        for a in P:
+            for b in P:
+                yield ("map2", a.kind, b.kind), (lambda a=a, b=b: prim([a.make(), ct.IntType(1), b.make(), ct.IntType(2)]))
+
+    def exprlist_cases():
+        for a in P:
+            for b in R:
+                yield ("list", a.kind, b.kind), (lambda a=a, b=b: ct.ListType([a.make(), b.make()]))
+
+    msgs = {"none": lambda: None, "empty": lambda: ct.MessageType(), "value": lambda: ct.MessageType(value=ct.IntType(1)),
+            "other": lambda: ct.MessageType(a=ct.IntType(1)), "valuestr": lambda: ct.MessageType(value=ct.StringType("x"))}
+
+    def classes():
+        out = [(p.kind, p.make) for p in P]
+        for name, c in sorted(celpy.googleapis.items()):
+            out.append(("type", (lambda c=c: c)))
+        return out
+
+    def object0_cases():
+        for k, mk in classes():
+            yield ("new", k, "none"), (lambda mk=mk: mk()(None))
+
+    def object_cases():
+        for k, mk in classes():
+            for mname, mm in msgs.items():
+                if mname == "none":
+                    continue
+                yield ("new", k, mname), (lambda mk=mk, mm=mm: mk()(mm()))
+
+    def fields_cases():
+        def prim(names, values):
+            fields = {}
+            for ident, expr in zip(names, values):
+                if ident in fields:
+                    raise ValueError(f"Duplicate field label {ident!r}")
+                fields[ident] = expr
+            return ct.MessageType(**fields)
+        for a in R:
+            yield ("fields", "distinct", a.kind), (lambda a=a: prim(["a", "b"], [a.make(), a.make()]))
+            yield ("fields", "duplicate", a.kind), (lambda a=a: prim(["a", "a"], [a.make(), a.make()]))
+            yield ("fields", "self", a.kind), (lambda a=a: prim(["self", "items"], [a.make(), a.make()]))
+
+    def literal_cases():
+        parser = celpy.CELParser()
+        for kind, text in LITERALS:
+            def call(text=text):
+                toks = list(parser.parser.lex(text))
+                if len(toks) != 1:
+                    raise AssertionError(f"literal pool entry {text!r} lexes to {len(toks)} tokens")
+                tok = toks[0]
+                t = tok.type
+                if t == "FLOAT_LIT":
+                    return ct.DoubleType(tok.value)
+                if t == "INT_LIT":
+                    return ct.IntType(tok.value)
+                if t == "UINT_LIT":
+                    return ct.UintType(tok.value[:-1])
+                if t in ("MLSTRING_LIT", "STRING_LIT"):
+                    return ev.celstr(tok)
+                if t == "BYTES_LIT":
+                    return ev.celbytes(tok)
+                if t == "BOOL_LIT":
+                    return ct.BoolType(tok.value.lower() == "true")
+                if t == "NULL_LIT":
+                    return None
+                raise AssertionError(f"literal pool entry {text!r} is a {t}")
+            yield ("lit", kind), call
 
     rel = {k: bf[k] for k in ("_<_", "_<=_", "_>_", "_>=_", "_==_", "_!=_", "_in_")}
     S: List[Site] = [
-        Site("exprCond", "expr", "func(cond_value, left, right)", {"_?_:_": cond_prim}, 3),
-        Site("condOr", "conditionalor", "func(left, right)", {"_||_": bf["_||_"]}, 2),
-        Site("condAnd", "conditionaland", "func(left, right)", {"_&&_": bf["_&&_"]}, 2),
-        Site("relation", "relation", "func(left, right)", rel, 2),
-        Site("addition", "addition", "func(left, right)", {k: bf[k] for k in ("_+_", "_-_")}, 2),
-        Site("multiplication", "multiplication", "func(left, right)", {k: bf[k] for k in ("_*_", "_/_", "_%_")}, 2),
-        Site("unary", "unary", "func(right)", {k: bf[k] for k in ("!_", "-_")}, 1),
-        Site("memberIndex", "member_index", "func(member, index)", {"_[_]": bf["_[_]"]}, 2),
-        # member_dot: the isinstance ladder is mirrored by the domains
-        Site("dotNameContainer", "member_dot", "member[property_name].value",
-             {"nc": lambda m, n: m[n].value}, 2,
-             domain=lambda m, n: isinstance(m, NameContainer) and isinstance(n, str) and n in m),
-        Site("dotMessage", "member_dot", "member.get(property_name)", {"msg": lambda m, n: m.get(n)}, 2,
-             domain=lambda m, n: (not isinstance(m, (CELEvalError, NameContainer))) and isinstance(m, ct.MessageType) and type(n) is str),
-        Site("dotMap", "member_dot", "member[property_name]", {"map": lambda m, n: m[n]}, 2,
-             domain=lambda m, n: (not isinstance(m, (CELEvalError, NameContainer, ct.MessageType))) and isinstance(m, ct.MapType) and type(n) is str,
-             which=1),
+        Site("exprCond", "expr", "func(cond_value, left, right)", cond_cases),
+        Site("condOr", "conditionalor", "func(left, right)", binary_cases({"_||_": bf["_||_"]})),
+        Site("condAnd", "conditionaland", "func(left, right)", binary_cases({"_&&_": bf["_&&_"]})),
+        Site("relation", "relation", "func(left, right)", binary_cases(rel)),
+        Site("addition", "addition", "func(left, right)", binary_cases({k: bf[k] for k in ("_+_", "_-_")})),
+        Site("multiplication", "multiplication", "func(left, right)", binary_cases({k: bf[k] for k in ("_*_", "_/_", "_%_")})),
+        Site("unary", "unary", "func(right)", unary_cases({k: bf[k] for k in ("!_", "-_")})),
+        Site("memberIndex", "member_index", "func(member, index)", binary_cases({"_[_]": bf["_[_]"]})),
+        Site("dotNameContainer", "member_dot", "member[property_name].value", dot_cases("nc")),
+        Site("dotMessage", "member_dot", "member.get(property_name)", dot_cases("msg")),
+        Site("dotMap", "member_dot", "member[property_name]", dot_cases("map"), which=1),
+        Site("macroIter", "member_dot_arg", "celpy.celtypes.ListType(mapping)", iter_cases,
+             also=("map(sub_expr, member_list)", "filter(sub_expr, member_list)")),
+        Site("macroTruth", "member_dot_arg", "bool(sub_expr(value))", truth_cases),
+        Site("macroMin", "member_dot_arg", "min(member_list)", min_cases),
+        Site("macroFold", "member_dot_arg", "eval_error('no such overload', TypeError)", fold_cases),
+        Site("methodResolve", "method_eval", "self.activation.resolve_function(method_ident.value)", resolve_fn_cases),
+        Site("methodCall", "method_eval", "function(object, *list_exprlist)", call_cases(True)),
+        Site("funcResolve", "function_eval", "self.activation.resolve_function(name_token.value)", resolve_fn_cases),
+        Site("funcCall", "function_eval", "function(*list_exprlist)", call_cases(False)),
+        Site("objectFields", "member_object", "self.visit_children(tree)", fields_cases),
+        Site("objectNew0", "member_object", "protobuf_class(None)", object0_cases),
+        Site("objectNew", "member_object", "protobuf_class(cast(celpy.celtypes.Value, fieldinits))", object_cases),
+        Site("mapLit", "primary", "self.visit_children(child)", maplit_cases, under="child.data == 'map_lit'"),
+        Site("dotIdent", "primary", "self.ident_value(name_token.value, root_scope=True)", lambda: resolve_var_cases(True)),
+        Site("ident", "primary", "self.ident_value(name_token.value)", lambda: resolve_var_cases(False)),
+        Site("literal", "literal", "celstr(value_token)", literal_cases,
+             also=("celbytes(value_token)", "celpy.celtypes.DoubleType(value_token.value)",
+                   "celpy.celtypes.IntType(value_token.value)", "celpy.celtypes.UintType(value_token.value[:-1])")),
+        Site("exprlist", "exprlist", "celpy.celtypes.ListType(cast(List[celpy.celtypes.Value], values))", exprlist_cases),
     ]
     return S
 
 
-def kind_of_exception(ex: BaseException) -> type:
-    return type(ex)
+def measure(sites: Optional[List[Site]] = None) -> Dict[str, Dict[Tuple[str, ...], Dict[str, Any]]]:
+    """Apply every primitive to every operand tuple. Result: site -> key -> {"exc": {class,...}, "n": calls,
+    "emptyargs": {class,...}} where `exc` holds the exception CLASSES raised (class objects) and `emptyargs`
+    those raised at least once with `args == ()` (handlers index `ex.args[0]`)."""
+    import logging
+    logging.disable(logging.CRITICAL)
+    out: Dict[str, Dict[Tuple[str, ...], Dict[str, Any]]] = {}
+    for s in sites or build_sites():
+        tab: Dict[Tuple[str, ...], Dict[str, Any]] = {}
+        for key, call in s.cases():
+            e = tab.setdefault(tuple(key), {"exc": set(), "n": 0, "emptyargs": set(), "ok": 0})
+            e["n"] += 1
+            try:
+                call()
+                e["ok"] += 1
+            except RecursionError as ex:   # keep the harness alive, still an observed class
+                e["exc"].add(type(ex))
+            except BaseException as ex:  # noqa: measuring is the point
+                if isinstance(ex, (KeyboardInterrupt, SystemExit)):
+                    raise
+                e["exc"].add(type(ex))
+                if not ex.args:
+                    e["emptyargs"].add(type(ex))
+        out[s.name] = tab
+    return out
